@@ -80,8 +80,8 @@ void h_softclip_isolation(void)
    for (i = 0; i < VERIF_C; i++) { mem[i] = nondet_float(); __CPROVER_assume(mem[i] >= -1.f && mem[i] <= 1.f); }
    mem[VERIF_QUIET] = 0;
    for (i = 0; i < VERIF_N; i++) __CPROVER_assume(x[i * VERIF_C + VERIF_QUIET] >= -1.f && x[i * VERIF_C + VERIF_QUIET] <= 1.f);
-   for (i = 0; i < VERIF_NC; i++) CANARY_ASSUME(x[i] == 0.25f);     /* canary build only: one concrete witness is enough for non-vacuity */
-   for (i = 0; i < VERIF_C; i++) CANARY_ASSUME(mem[i] == 0.f);
+   for (i = 0; i < VERIF_NC; i++) { CANARY_SET(x[i], 0.25f); CANARY_SET(in[i], 0.25f); }     /* canary build only: one concrete witness is enough for non-vacuity */
+   for (i = 0; i < VERIF_C; i++) CANARY_SET(mem[i], 0.f);
    opus_pcm_soft_clip(x, N, C, mem);
    k = nondet_int(); __CPROVER_assume(0 <= k && k < VERIF_N);
    __CPROVER_assert(BITS(x[k * VERIF_C + VERIF_QUIET]) == BITS(in[k * VERIF_C + VERIF_QUIET]), "a channel inside [-1,1] with cleared memory is untouched whatever the other channels contain");
